@@ -231,7 +231,8 @@ impl Spec {
     /// The message and, per section, the expected (type, RFC RDATA) of every record.
     fn build(&self, al: &Alpha) -> (Message, [Vec<XRec>; 3]) {
         let mt = if self.flags & 1 != 0 { MessageType::Response } else { MessageType::Query };
-        let mut m = Message::new(0xbeef, mt, OpCode::from_u8(self.opcode));
+        let id = [0xbeefu16, 0, 0xffff, 1][(self.flags as usize + self.rcode as usize + self.recs.len()) % 4];
+        let mut m = Message::new(id, mt, OpCode::from_u8(self.opcode));
         m.metadata.authoritative = self.flags & 2 != 0;
         m.metadata.truncation = self.flags & 4 != 0;
         m.metadata.recursion_desired = self.flags & 8 != 0;
@@ -379,7 +380,7 @@ fn judge_d1(m: &Message, exp: &[Vec<XRec>; 3], l: &mut Local, case: &dyn Fn() ->
 
 // ---- compression sweeps ------------------------------------------------------------------
 
-const SWEEPS: [&str; 7] = ["same-owner", "distinct-owners", "ns-targets", "mx-mixed-case", "srv-target-then-owner", "deep-suffixes", "soa-names"];
+const SWEEPS: [&str; 8] = ["long-names", "same-owner", "distinct-owners", "ns-targets", "mx-mixed-case", "srv-target-then-owner", "deep-suffixes", "soa-names"];
 
 fn xr(owner: &str, ttl: u32, rtype: u16, data: RData, wire: Vec<u8>) -> XRec {
     XRec { record: Record::from_rdata(hn(owner), ttl, data), rtype, wire }
@@ -397,6 +398,14 @@ fn sweep(variant: &str, n: usize) -> (Message, [Vec<XRec>; 3]) {
             "same-owner" => {
                 let (d, w) = a4(i);
                 exp[sec].push(xr("a.z.", i as u32, 1, d, w));
+            }
+            // owners of 193..255 wire octets (first label 1..63 octets) sharing a 191-octet suffix; every
+            // third owner spells the suffix in another case (must not be merged with the first spelling)
+            "long-names" => {
+                let first = "f".repeat(i % 63 + 1);
+                let o = if i % 3 == 2 { format!("{first}.@63.@@63.@61.") } else { format!("{first}.@63.@63.@61.") };
+                let (d, w) = a4(i);
+                exp[sec].push(xr(&o, 1, 1, d, w));
             }
             "distinct-owners" => {
                 let (d, w) = a4(i);
@@ -740,7 +749,7 @@ fn main() {
          compact alphabet) in ALL section placements x questions {none, a.z. A, A.Z. ANY CH, two} x EDNS/TSIG combinations; the full EDNS \
          (15 variants) x TSIG (4 variants) product on 1-record bodies; ALL 2^7 header flag combinations x 7 opcodes x 11 rcodes \
          (extended ones with EDNS); UPDATE messages with <=2 records from {empty-RDATA records of 6 types x 3 classes, 10 ordinary}; \
-         compression sweeps: 7 families x every n = 0..200 records, first-occurrence offsets 0x3ff0..0x4010 x 2 variants. Oracle: \
+         compression sweeps: 8 families x every n = 0..200 records, first-occurrence offsets 0x3ff0..0x4010 x 2 variants. Oracle: \
          independent walker reads the encoding completely, finds the assembled names case-sensitively and the RFC RDATA octets \
          (after name expansion for NS/CNAME/PTR/MX/SOA); Message::from_vec(Message::to_vec(m)) equals m field by field (names eq_case, \
          TTLs, numeric class/rcode). Direction 2: every message-shaped string of the C01 families (header shape + ALL bodies of \
@@ -812,12 +821,12 @@ fn main() {
     ctx.set("d1_one_record", json!(od.space()));
     ctx.par_run(od.space(), 256, |i, l| {
         let d = od.get(i);
-        run_spec(
-            &Spec { level: lvl, recs: vec![(d[0] as usize, d[1] as u8)], q: d[2] as u8, edns: d[3] as i32 - 1, tsig: d[4] as i32 - 1, flags: 0x09, ..Default::default() },
-            l,
-        );
-        if i % 50_000 == 0 {
-            l.sample(json!({"dir": 1, "family": "one-record", "index": i}));
+        let sp = Spec { level: lvl, recs: vec![(d[0] as usize, d[1] as u8)], q: d[2] as u8, edns: d[3] as i32 - 1, tsig: d[4] as i32 - 1, flags: 0x09, ..Default::default() };
+        run_spec(&sp, l);
+        if i % 100_003 == 0 {
+            let mut j = sp.to_json(thorough);
+            j["record"] = json!(al.levels[lvl as usize][d[0] as usize].tag);
+            l.sample(j);
         }
     });
     // 2 records
@@ -829,8 +838,8 @@ fn main() {
         for (q, e, t) in combos(i) {
             run_spec(&Spec { level: lvl, recs: vec![(d[0] as usize, s1), (d[1] as usize, s2)], q, edns: e, tsig: t, flags: 0x03, ..Default::default() }, l);
         }
-        if i % 100_000 == 0 {
-            l.sample(json!({"dir": 1, "family": "two-records", "recs": [d[0], d[1]], "secs": [s1, s2]}));
+        if i % 100_003 == 7 {
+            l.sample(json!({"dir": 1, "family": "two-records", "records": [al.levels[lvl as usize][d[0] as usize].tag, al.levels[lvl as usize][d[1] as usize].tag], "sections": [s1, s2], "combos": combos(i).len()}));
         }
     });
     // 3 records (thorough): compact alphabet
